@@ -6,6 +6,7 @@ import (
 	"fmt"
 	"sort"
 	"time"
+	"verif/kv"
 
 	cfg "github.com/lianxiangcloud/linkchain/config"
 	cs "github.com/lianxiangcloud/linkchain/consensus"
@@ -193,7 +194,7 @@ func Config() *cfg.ConsensusConfig {
 // NewNode builds a real node for validator i (i < 0: a non-validator observer).
 func (f *Fixture) NewNode(i int, variant uint64) *Node {
 	app := NewTrivApp(f.Vals, variant)
-	db := dbm.NewMemDB()
+	db := kv.NewCopyDB() // MemDB with the production backend's copy and missing-key semantics
 	st := f.GenesisStatus()
 	cs.SaveStatus(db, st)
 	be := cs.NewBlockExecutor(db, log.NewNopLogger(), cs.MockEvidencePool{})
